@@ -167,7 +167,37 @@ def cells_rules(run, r_cells, r_pair, r_guard, ast):
             if not okp:
                 run.violation(r_pair, "compiler::build_dispatch_table|counters|n=%s" % ("2+" if nval >= 2 else nval),
                               "for a best set of size %d the report counters incremented are %s, expected %s" % (nval, {c: sorted(x[0]) for c, x in cond.items()}, sorted(exp_inc)), (f["file"], f["line"]))
+        if r_pair is not None:
+            # counters and cells may only be touched inside the best-set decision classified above
+            inside = {x["id"] for x in astq.walk(rest)}
+            def touches(n):
+                if n.get("k") == "CXXMemberCallExpr" and not n.get("cconst") and any(x.get("k") == "MemberExpr" and x.get("member") == "dispatch_table" for x in astq.walk(n["c"][0])):
+                    return True
+                if n.get("k") in ("UnaryOperator", "CompoundAssignOperator", "BinaryOperator") and n.get("op") in ("++", "--", "+=", "-=", "=", "*="):
+                    t = astq.strip(n["c"][0])
+                    return t is not None and t.get("k") == "MemberExpr" and t.get("member") in counters + ("cells", "concrete_cells")
+                return False
+            outside = [n for n in astq.walk(f["body"]) if touches(n) and n["id"] not in inside]
+            conc = [n for n in outside if astq.strip(n["c"][0]).get("k") == "MemberExpr" and astq.strip(n["c"][0]).get("member", "").startswith("concrete_")]
+            run.instance(r_pair, "%s: concrete_* counters are only touched at the leaf (dim == 0), where every dimension's concreteness is known" % short(f), (f["file"], f["line"]), ok=not conc)
+            for n in conc:
+                run.violation(r_pair, "compiler::build_dispatch_table|concrete-counter-above-leaf", "`%s` at line %s counts concrete tuples outside the dim == 0 leaf: the concreteness of the inner dimensions is not known there" % (astq.text(n), n["l"]), (f["file"], n["l"]))
+            for n in outside:
+                if n not in conc:
+                    run.broken.append("%s: `%s` (line %s) writes cells / counters outside the best-set decision the counting rules classify" % (short(f), astq.text(n)[:80], n["l"]))
         if r_guard is not None:
+            # the concreteness flag threaded through the recursion: concrete && group.has_concrete_classes
+            rec = [n for n in astq.walk(f["body"]) if n.get("k") == "CXXMemberCallExpr" and (n.get("callee") or "").endswith("::build_dispatch_table")]
+            okt = False
+            got = None
+            if len(rec) == 1:
+                last = rec[0]["c"][-1]
+                got = dtab.guard_atoms([(last, True)])
+                okt = got == frozenset({("concrete", True), ("group.has_concrete_classes", True)})
+            run.instance(r_guard, "%s: the recursion passes concrete && group.has_concrete_classes" % short(f), (f["file"], rec[0]["l"] if rec else f["line"]), ok=okt)
+            if not okt:
+                run.violation(r_guard, "compiler::build_dispatch_table|concrete-thread", "the concreteness flag handed to the next dimension is %s; it must combine the outer dimensions' flag with this group's (concrete && group.has_concrete_classes)" % (
+                    sorted(got) if got is not None else "?"), (f["file"], rec[0]["l"] if rec else f["line"]))
             ga = table[2][1].get("concrete_ambiguous", (None, False))[0]
             gn = table[0][1].get("concrete_not_implemented", (None, False))[0]
             ok = ga is not None and ga == gn and ga == G
@@ -1299,3 +1329,181 @@ def applicable_rules(run, rule, ast):
         run.instance(rule, "%s: covariant(c) = {c} U covariant(d) for every direct derived class d (computed first)" % short(f), (f["file"], f["line"]), ok=ok)
         if not ok:
             run.violation(rule, "compiler::calculate_covariant_classes|closure", "covariant set is not {class} united with the covariant sets of all direct derived classes (self %s, union %s, recursion %s)" % (self_ok, union_ok, rec_ok), (f["file"], f["line"]))
+
+
+# ---------------------------------------------------------------------------
+# (12) the dispatch table's geometry: strides, cell order, group numbers, what install_gv puts in the v-tables
+
+def table_rules(run, rule, ast):
+    sym = lambda n: (_sym_bias(n) or None)
+    for f in by_name(ast, "build_dispatch_tables"):
+        # (a) strides: stride_1 = |groups_0|, stride_k = stride_{k-1} * |groups_{k-1}|
+        fors = [n for n in astq.walk(f["body"]) if n.get("k") == "ForStmt" and any(x.get("k") == "CXXMemberCallExpr" and (x.get("callee") or "").endswith("::push_back") and
+                any(y.get("k") == "MemberExpr" and y.get("member") == "strides" for y in astq.walk(x["c"][0])) for x in astq.walk(n["body"]))]
+        ok = False
+        why = "stride loop not found"
+        if len(fors) == 1:
+            lp = fors[0]
+            init = lp["init"]["decls"][0] if lp.get("init") and lp["init"].get("k") == "DeclStmt" else None
+            lo = astq.affine(init["init"]) if init else None
+            dim = init["did"] if init else None
+            muls = [n for n in astq.walk(lp["body"]) if n.get("k") == "CompoundAssignOperator" and n.get("op") == "*="]
+            pushes = [n for n in astq.walk(lp["body"]) if n.get("k") == "CXXMemberCallExpr" and (n.get("callee") or "").endswith("::push_back")]
+            if lo == {1: 1} and len(muls) == 1 and len(pushes) == 1:
+                sv = astq.strip(muls[0]["c"][0])
+                rhs = astq.strip(muls[0]["c"][1])
+                idx = None
+                if rhs.get("k") == "CXXMemberCallExpr" and (rhs.get("callee") or "").endswith("::size"):
+                    sub = [x for x in astq.walk(rhs["c"][0]) if x.get("k") == "CXXOperatorCallExpr" and x.get("oop") == "[]"]
+                    if sub and any(y.get("k") == "DeclRefExpr" and y["ref"]["name"].endswith("groups") for y in astq.walk(sub[0]["c"][1])):
+                        idx = astq.affine(sub[0]["c"][2], {dim: {"dim": 1}})
+                pushed = astq.strip(pushes[0]["c"][1])
+                svinit = None
+                for n in astq.walk(f["body"]):
+                    if n.get("k") == "DeclStmt":
+                        for d in n["decls"]:
+                            if sv.get("k") == "DeclRefExpr" and d["did"] == sv["ref"]["did"]:
+                                svinit = astq.affine(d.get("init")) if d.get("init") is not None else None
+                cond = astq.strip(lp.get("cond"))
+                hi_ok = cond is not None and cond.get("k") == "BinaryOperator" and cond.get("op") == "<" and any(
+                    (x.get("callee") or "").endswith("::arity") for x in astq.walk(cond["c"][1]) if x.get("k") == "CXXMemberCallExpr")
+                ok = idx == {"dim": 1, 1: -1} and pushed.get("k") == "DeclRefExpr" and sv.get("k") == "DeclRefExpr" and pushed["ref"]["did"] == sv["ref"]["did"] and svinit == {1: 1} and hi_ok \
+                    and muls[0]["l"] <= pushes[0]["l"]
+                why = "index %s, initial %s, bound ok %s" % (astq.aff_show(idx), astq.aff_show(svinit), hi_ok)
+        run.instance(rule, "%s: stride of dimension k is the product of the group counts of dimensions 0..k-1" % short(f), (f["file"], fors[0]["l"] if fors else f["line"]), ok=ok)
+        if not ok:
+            run.violation(rule, "compiler::build_dispatch_tables|strides", "strides are not computed as the running product of the lower dimensions' group counts (%s)" % why, (f["file"], fors[0]["l"] if fors else f["line"]))
+        # (b) top-level call of build_dispatch_table: (m, dims - 1, groups.end() - 1, all specs, true)
+        calls = [n for n in astq.walk(f["body"]) if n.get("k") == "CXXMemberCallExpr" and (n.get("callee") or "").endswith("::build_dispatch_table")]
+        okc = False
+        if len(calls) == 1:
+            a = calls[0]["c"][1:]
+            dimv = astq.affine(a[1], {}, lambda n: "dims" if (n.get("k") == "CXXMemberCallExpr" and (n.get("callee") or "").endswith("::arity")) else None)
+            env = {}
+            for n in astq.walk(f["body"]):
+                if n.get("k") == "DeclStmt":
+                    for d in n["decls"]:
+                        if d["name"] == "dims":
+                            env[d["did"]] = {"dims": 1}
+            dimv = astq.affine(a[1], env, lambda n: "dims" if (n.get("k") == "CXXMemberCallExpr" and (n.get("callee") or "").endswith("::arity")) else None)
+            its = [x for x in astq.walk(a[2]) if x.get("k") == "CXXOperatorCallExpr" and x.get("oop") == "-"]
+            it = its[0] if its else {}
+            it_ok = bool(its) and any((x.get("callee") or "").endswith("::end") for x in astq.walk(it) if x.get("k") == "CXXMemberCallExpr") and astq.affine(it["c"][2]) == {1: 1}
+            conc = astq.strip(a[4])
+            okc = dimv == {"dims": 1, 1: -1} and it_ok and conc.get("k") == "CXXBoolLiteralExpr" and conc.get("v") is True
+        run.instance(rule, "%s: table construction starts at the last dimension with all definitions as candidates" % short(f), (f["file"], calls[0]["l"] if calls else f["line"]), ok=okc)
+        if not okc:
+            run.violation(rule, "compiler::build_dispatch_tables|top-call", "the top-level build_dispatch_table call is not (m, dims - 1, groups.end() - 1, all, true)", (f["file"], calls[0]["l"] if calls else f["line"]))
+        # (c) v-table entries: method index, parameter index, group number in iteration order
+        byid, parent = astq.index_nodes(f)
+        asg = {}
+        for n in astq.walk(f["body"]):
+            if n.get("k") == "BinaryOperator" and n.get("op") == "=":
+                l = astq.strip(n["c"][0])
+                if l.get("k") == "MemberExpr" and l.get("member") in ("method_index", "vp_index", "group_index") and any(x.get("k") == "DeclRefExpr" and x["ref"]["name"] == "entry" for x in astq.walk(l)):
+                    asg[l["member"]] = n
+        oke = set(asg) == {"method_index", "vp_index", "group_index"}
+        if oke:
+            gi = astq.strip(asg["group_index"]["c"][1])
+            vi = astq.strip(asg["vp_index"]["c"][1])
+            loops = _enclosing(parent, asg["group_index"], ("CXXForRangeStmt", "ForStmt"))
+            # group counter: declared in the dimension loop, incremented once per group of groups[dim]
+            gl = [lp for lp in loops if lp.get("k") == "CXXForRangeStmt" and any(x.get("k") == "CXXOperatorCallExpr" and x.get("oop") == "[]" and any(
+                y.get("k") == "DeclRefExpr" and y["ref"]["name"].endswith("groups") for y in astq.walk(x)) for x in astq.walk(astq.strip(lp["range"])))]
+            dl = [lp for lp in loops if lp.get("k") == "ForStmt"]
+            oke = bool(gl) and bool(dl) and gi.get("k") == "DeclRefExpr" and vi.get("k") == "DeclRefExpr" and dl[0].get("init") and vi["ref"]["did"] == dl[0]["init"]["decls"][0]["did"]
+            if oke:
+                incs = [n for n in astq.walk(gl[0]["body"]) if n.get("k") == "UnaryOperator" and n.get("op") == "++" and astq.strip(n["c"][0]).get("k") == "DeclRefExpr" and astq.strip(n["c"][0])["ref"]["did"] == gi["ref"]["did"]]
+                oke = len(incs) == 1 and parent.get(incs[0]["id"]) is gl[0]["body"] and not _in_subtree(gl[0]["body"], None)
+                # the index of groups[...] in the range is the dimension variable
+                rng = [x for x in astq.walk(astq.strip(gl[0]["range"])) if x.get("k") == "CXXOperatorCallExpr" and x.get("oop") == "[]"][0]
+                oke = oke and astq.strip(rng["c"][2]).get("k") == "DeclRefExpr" and astq.strip(rng["c"][2])["ref"]["did"] == vi["ref"]["did"]
+                # zero at the start of each dimension
+                decl = [d for n in astq.walk(dl[0]["body"]) if n.get("k") == "DeclStmt" for d in n["decls"] if d["did"] == gi["ref"]["did"]]
+                oke = oke and len(decl) == 1 and astq.affine(decl[0].get("init")) == {}
+        run.instance(rule, "%s: each class's v-table entry records (method, parameter index, number of its group in the order groups[dim] is iterated)" % short(f), (f["file"], asg["group_index"]["l"] if "group_index" in asg else f["line"]), ok=bool(oke))
+        if not oke:
+            run.violation(rule, "compiler::build_dispatch_tables|entry-fields", "v-table entries are not filled with (method index, dim, running group number of groups[dim])", (f["file"], f["line"]))
+    for f in by_name(ast, "build_dispatch_table"):
+        # (d) recursion: (m, dim - 1, group_iter - 1, candidates & group_mask, ...), cells pushed at dim == 0
+        rec = [n for n in astq.walk(f["body"]) if n.get("k") == "CXXMemberCallExpr" and (n.get("callee") or "").endswith("::build_dispatch_table")]
+        ok = False
+        if len(rec) == 1:
+            a = rec[0]["c"][1:]
+            pd = {p["name"]: p["did"] for p in f["params"]}
+            dimv = astq.affine(a[1], {pd.get("dim"): {"dim": 1}})
+            its = [x for x in astq.walk(a[2]) if x.get("k") == "CXXOperatorCallExpr" and x.get("oop") == "-"]
+            it = its[0] if its else {}
+            it_ok = bool(its) and astq.strip(it["c"][1]).get("k") == "DeclRefExpr" and astq.strip(it["c"][1])["ref"]["did"] == pd.get("group_iter") and astq.affine(it["c"][2]) == {1: 1}
+            mk = astq.strip(a[3])
+            mk_ok = False
+            if mk.get("k") == "DeclRefExpr":
+                for n in astq.walk(f["body"]):
+                    if n.get("k") == "DeclStmt":
+                        for d in n["decls"]:
+                            if d["did"] == mk["ref"]["did"] and d.get("init") is not None:
+                                i0 = [x for x in astq.walk(d["init"]) if x.get("k") == "CXXOperatorCallExpr" and x.get("oop") == "&"]
+                                mk_ok = bool(i0) and any(y.get("k") == "DeclRefExpr" and y["ref"]["did"] == pd.get("candidates") for y in astq.walk(i0[0])) and any(
+                                    y.get("k") == "DeclRefExpr" and y["ref"]["name"] == "group_mask" for y in astq.walk(i0[0]))
+            ifs = [n for n in astq.walk(f["body"]) if n.get("k") == "IfStmt" and _in_subtree(n.get("else") or {"k": "x", "id": -5}, rec[0])]
+            zero = bool(ifs) and astq.strip(ifs[0]["cond"]).get("k") == "BinaryOperator" and astq.strip(ifs[0]["cond"]).get("op") == "==" and astq.affine(astq.strip(ifs[0]["cond"])["c"][0], {pd.get("dim"): {"dim": 1}}) == {"dim": 1} and astq.affine(astq.strip(ifs[0]["cond"])["c"][1]) == {}
+            ok = dimv == {"dim": 1, 1: -1} and it_ok and mk_ok and zero
+        run.instance(rule, "%s: recursion descends one dimension with candidates & group mask; cells are pushed at dimension 0 (row-major, dimension 0 fastest)" % short(f), (f["file"], rec[0]["l"] if rec else f["line"]), ok=ok)
+        if not ok:
+            run.violation(rule, "compiler::build_dispatch_table|recursion", "the recursion is not build_dispatch_table(m, dim - 1, group_iter - 1, candidates & group_mask, ...) with cells pushed when dim == 0", (f["file"], rec[0]["l"] if rec else f["line"]))
+    for f in by_name(ast, "install_gv"):
+        # (e) what the v-table cells receive
+        el = [n for n in astq.walk(f["body"]) if n.get("k") == "CXXForRangeStmt" and any(x.get("k") == "MemberExpr" and x.get("member") == "vtbl" for x in astq.walk(astq.strip(n["range"])))]
+        if len(el) != 1:
+            continue
+        ev = el[0]["var"]["did"]
+
+        def is_cell_write(n):
+            if n.get("k") != "BinaryOperator" or n.get("op") != "=":
+                return False
+            l = astq.strip(n["c"][0])
+            return l.get("k") == "UnaryOperator" and l.get("op") == "*" and any(x.get("k") == "DeclRefExpr" and x["ref"]["name"].endswith("gv_iter") for x in astq.walk(l))
+        res = {}
+        for uni in (True, False):
+            for first in (True, False):
+                def decide(c, uni=uni, first=first):
+                    c0 = astq.strip(c)
+                    if c0.get("k") == "BinaryOperator" and c0.get("op") in ("==", "!=", ">", "<"):
+                        l = astq.affine(c0["c"][0], {}, lambda n: "arity" if (n.get("k") == "CXXMemberCallExpr" and (n.get("callee") or "").endswith("::arity")) else ("vp" if n.get("k") == "MemberExpr" and n.get("member") == "vp_index" else None))
+                        r = astq.affine(c0["c"][1], {}, lambda n: None)
+                        if l is not None and r is not None and set(l) - {1} <= {"arity", "vp"} and set(l) - {1}:
+                            var = list(set(l) - {1})[0]
+                            val = (1 if uni else 2) if var == "arity" else (0 if first else 1)
+                            lv = l.get(var, 0) * val + l.get(1, 0)
+                            rv = r.get(1, 0)
+                            return {"==": lv == rv, "!=": lv != rv, ">": lv > rv, "<": lv < rv}[c0["op"]]
+                    return None
+                ps = astq.enum_paths(el[0]["body"], decide, is_cell_write)
+                vals = set()
+                for p in ps:
+                    for k, n in p["events"]:
+                        rhs = n["c"][1]
+                        mem = [x["member"] for x in astq.walk(rhs) if x.get("k") == "MemberExpr"]
+                        if "pf" in mem:
+                            vals.add("definition-pointer")
+                        elif "gv_dispatch_table" in mem and "group_index" in mem:
+                            vals.add("table+group")
+                        elif mem == ["group_index"]:
+                            vals.add("group")
+                        else:
+                            vals.add("other:" + astq.text(rhs))
+                res[(uni, first)] = vals
+        exp = {(True, True): {"definition-pointer"}, (True, False): {"definition-pointer"}, (False, True): {"table+group"}, (False, False): {"group"}}
+        ok = res == exp
+        # the definition pointer of a uni-method is that of dispatch_table[entry.group_index]
+        spec_ok = any(d.get("init") is not None and any(x.get("k") == "CXXOperatorCallExpr" and x.get("oop") == "[]" and any(y.get("k") == "MemberExpr" and y.get("member") == "dispatch_table" for y in astq.walk(x["c"][1])) and
+                      any(y.get("k") == "MemberExpr" and y.get("member") == "group_index" for y in astq.walk(x["c"][2])) for x in astq.walk(d["init"]))
+                      for n in astq.walk(el[0]["body"]) if n.get("k") == "DeclStmt" for d in n["decls"])
+        # and the table base recorded before the cells are copied
+        base_ok = any(n.get("k") == "BinaryOperator" and n.get("op") == "=" and astq.strip(n["c"][0]).get("k") == "MemberExpr" and astq.strip(n["c"][0]).get("member") == "gv_dispatch_table" and
+                      astq.strip(n["c"][1]).get("k") == "DeclRefExpr" and astq.strip(n["c"][1])["ref"]["name"].endswith("gv_iter") for n in astq.walk(f["body"]))
+        ok = ok and spec_ok and base_ok
+        run.instance(rule, "%s: v-table cell = definition pointer (uni-method), table base + group (first parameter), group number (other parameters)" % short(f), (f["file"], el[0]["l"]), ok=ok,
+                     detail={str(k): sorted(v) for k, v in res.items()})
+        if not ok:
+            run.violation(rule, "compiler::install_gv|cell-values", "v-table cells receive %s (uni/multi x first/other parameter); the walk expects a definition pointer, table base + group, group number" % {str(k): sorted(v) for k, v in res.items()}, (f["file"], el[0]["l"]))
